@@ -344,6 +344,16 @@ static const float FLOOR1_fromdB_LOOKUP[256]={
   0.82788260F, 0.88168307F, 0.9389798F, 1.F,
 };
 
+#ifdef XIPH_VORBIS_VERIF
+/* verification probes (off unless a harness points them at its buffers):
+   floor posts after unwrapping, and the integer curve value at every bin */
+int *vorbis_verif_fit=0;  int vorbis_verif_nfit=0;   /* out: posts of the last floor1_inverse1 (capacity in nfit on entry, count on return) */
+int *vorbis_verif_ybuf=0; int vorbis_verif_ylen=0;   /* out: y index per bin of the last floor1_inverse2 */
+#define VERIF_Y(x,y) do{ if(vorbis_verif_ybuf && (x)>=0 && (x)<vorbis_verif_ylen) vorbis_verif_ybuf[x]=(y); }while(0)
+#else
+#define VERIF_Y(x,y)
+#endif
+
 static void render_line(int n, int x0,int x1,int y0,int y1,float *d){
   int dy=y1-y0;
   int adx=x1-x0;
@@ -360,6 +370,9 @@ static void render_line(int n, int x0,int x1,int y0,int y1,float *d){
 
   if(x<n)
     d[x]*=FLOOR1_fromdB_LOOKUP[y];
+#ifdef XIPH_VORBIS_VERIF
+  if(x<n)VERIF_Y(x,y);
+#endif
 
   while(++x<n){
     err=err+ady;
@@ -370,6 +383,7 @@ static void render_line(int n, int x0,int x1,int y0,int y1,float *d){
       y+=base;
     }
     d[x]*=FLOOR1_fromdB_LOOKUP[y];
+    VERIF_Y(x,y);
   }
 }
 
@@ -1032,6 +1046,13 @@ static void *floor1_inverse1(vorbis_block *vb,vorbis_look_floor *in){
 
     }
 
+#ifdef XIPH_VORBIS_VERIF
+    if(vorbis_verif_fit){
+      int cap=vorbis_verif_nfit;
+      vorbis_verif_nfit=look->posts;
+      for(i=0;i<look->posts && i<cap;i++)vorbis_verif_fit[i]=fit_value[i];
+    }
+#endif
     return(fit_value);
   }
  eop:
@@ -1073,6 +1094,9 @@ static int floor1_inverse2(vorbis_block *vb,vorbis_look_floor *in,void *memo,
       }
     }
     for(j=hx;j<n;j++)out[j]*=FLOOR1_fromdB_LOOKUP[ly]; /* be certain */
+#ifdef XIPH_VORBIS_VERIF
+    for(j=hx;j<n;j++)VERIF_Y(j,ly);
+#endif
     return(1);
   }
   memset(out,0,sizeof(*out)*n);
